@@ -466,17 +466,19 @@ def build_workflow(spec: dict, world: "EngineWorld", **wf_kwargs: Any) -> Workfl
     ns: dict[str, Any] = {}
     wref = weakref.ref(world)
     any_stop = any(s.get("stop") for s in spec["steps"])
+    world.stop_subclass = bool(spec.get("stop_subclass"))
+    StopT = EV.Stop1 if world.stop_subclass else StopEvent
     for s in spec["steps"]:
         acc = [EV.TYPES[t] if t != "StepFailedEvent" else StepFailedEvent for t in s["accepts"]]
         rets: list = [EV.TYPES[t] for t in s["returns"]]
         if s.get("stop"):
-            rets.append(StopEvent)
+            rets.append(StopT)
         elif not rets and not any_stop:
-            rets.append(StopEvent)
+            rets.append(StopT)
         elif not rets and s["name"] != "zfin":
             # sink: annotate a (never taken) path to the output so upstream steps
             # are not dead ends
-            rets.append(StopEvent)
+            rets.append(StopT)
         rets.append(type(None))
         fn = _make_fn(s, wref)
         fn.__name__ = s["name"]
@@ -491,6 +493,11 @@ def build_workflow(spec: dict, world: "EngineWorld", **wf_kwargs: Any) -> Workfl
     cls.__module__ = __name__
     kwargs = dict(timeout=spec.get("timeout"), disable_validation=spec.get("disable_validation", False),
                   runtime=world.runtime)
+    if spec.get("verbose"):
+        kwargs["verbose"] = True
+        # the verbose adapter falls back to print(): keep the check's output readable (module-level name, rebound from outside)
+        import workflows.runtime.verbose as _vb
+        _vb.print = lambda *a, **k: None  # type: ignore[attr-defined]
     kwargs.update(wf_kwargs)
     return cls(**kwargs)
 
@@ -842,6 +849,11 @@ class EngineWorld:
                 return ("returned", None), None
             if r == "stop":
                 res = {"uid": in_uid}
+                if getattr(self, "stop_subclass", False):
+                    # the workflow ends with a user-defined StopEvent subclass
+                    self.trace.log("emit", uid=None, ev="Stop1", by=name, via="return", target=None,
+                                   parent=in_uid, inv=rec["inv"], run=rec["run"])
+                    return ("returned-stop", None), EV.Stop1(uid=-3, payload=self.stop_result(rec))
                 self.trace.log("emit", uid=None, ev="StopEvent", by=name, via="return", target=None,
                                parent=in_uid, inv=rec["inv"], run=rec["run"])
                 return ("returned-stop", None), StopEvent(result=self.stop_result(rec))
